@@ -5,3 +5,4 @@ package props
 // black-box mode: the unexported remainder function is not reachable; the syndrome model uses
 // the reference generator and the decoder replays carry the verdict.
 var hookCashPolyMod func([]byte) uint64
+var hookCashVerify func(string, []byte) bool
